@@ -466,7 +466,8 @@ def _do_rewrite(source: str, rewrite: _Rewrite, *, fix_function_name: str = "") 
 
         return new_source
 
-    lines = new_code.splitlines(keepends=True)
+    # The lines that the parser sees: a form feed inside a string does not end a line
+    lines = io.StringIO(new_code, newline="").readlines()
     indent = getattr(old, "col_offset", getattr(new, "col_offset", 0))
     indents = {**{i: indent for i in range(len(lines))}, 0: len(code) - len(code.lstrip(" "))}
     lines_ending_in_string = set()
@@ -476,12 +477,12 @@ def _do_rewrite(source: str, rewrite: _Rewrite, *, fix_function_name: str = "") 
     except SyntaxError:
         pass  # new_code is not necessarily valid python syntax in all cases
     else:
-        for node in core.walk(new_code_ast, (ast.Constant(value=str), ast.JoinedStr)):
-            node_code = core.get_code(node, new_code)
-            if any(
-                node_code.startswith(prefix) and node_code.endswith(prefix[-3:])
-                for prefix in ("b'''", "r'''", "f'''", "'''", 'b"""', 'r"""', 'f"""', '"""')
-            ):
+        for node in core.walk(
+            new_code_ast, (ast.Constant(value=str), ast.Constant(value=bytes), ast.JoinedStr)
+        ):
+            # Whatever its prefix and its quotes, and also if it is continued with backslashes or
+            # is one of several adjacent literals: what is in its lines may be part of its value.
+            if node.end_lineno > node.lineno:
                 for lineno in range(node.lineno, node.end_lineno):
                     indents[lineno] = 0
                     # The end of the line before is inside the string
